@@ -188,7 +188,9 @@ async def _tcp_cell(position: str, exc_name: str, tls: bool) -> dict[str, Any]:
 
     kw: dict[str, Any] = {}
     if tls:
-        kw = {"ssl": tlspeer.server_context(), "ssl_handshake_timeout": 5, "ssl_shutdown_timeout": 1}
+        # a stalled / broken handshake must be abandoned after ssl_handshake_timeout (5 s), whatever the other timeouts are: in those cells the
+        # shutdown timeout is longer than the observation window, elsewhere it is short so that closing a silent client ends within it
+        kw = {"ssl": tlspeer.server_context(), "ssl_handshake_timeout": 5, "ssl_shutdown_timeout": 30 if position in SETUP_FAULTS_TLS else 1}
     fx = srvharness.TCPServerFixture(StreamProtocol(StringLineSerializer()), Handler(), **kw)
     await fx.start()
     sent = {1: 0, 2: 0, 3: 0}
